@@ -473,6 +473,36 @@ func init() {
 			}
 		})
 	}
+	// a forced stop while a member is busy in a callback: success is reported only once the application is down
+	for mname, mode := range modes {
+		mode := mode
+		race("stopforce-busy-member-"+mname, mode, 1, 2, true, func(w *World, app *appB) func() {
+			g := &vsched.Gate{}
+			w.Setup("park-m2", func() { w.n.Send(w.pids["m2"], g) })
+			var err error
+			ret := false
+			var stateAtReturn gen.ApplicationState
+			var aliveAtReturn bool
+			w.ex.Thread("SF", func() {
+				err = w.n.ApplicationStopForce("app")
+				info, _ := w.n.ApplicationInfo("app")
+				stateAtReturn = info.State
+				aliveAtReturn = w.memberAlive("m1") || w.memberAlive("m2")
+				ret = true
+			})
+			w.ex.ThreadLow("OPEN", func() { g.Open() })
+			return func() {
+				if !ret {
+					w.ex.Fail("stop-hangs", "ApplicationStopForce did not return")
+					return
+				}
+				if err == nil && (stateAtReturn != gen.ApplicationStateLoaded || aliveAtReturn) {
+					w.ex.Fail("stop-ok-not-stopped", "ApplicationStopForce returned nil while the state was %s and members alive=%v (a member was busy in a callback)", stateAtReturn, aliveAtReturn)
+				}
+				w.Out("err=%v", err)
+			}
+		})
+	}
 	// the causing reason survives later deaths: m2 is busy in a callback when m1 crashes with E (the application
 	// starts stopping); m2 then fails with X instead of obeying the shutdown request
 	for mname, mode := range modes {
